@@ -178,12 +178,17 @@ var (
 // the distinct-case measure, so it must not depend on the generator): "" is a
 // plain name.
 func nameClass(n string) string {
-	low := strings.ToLower(n)
-	switch {
-	case n == "":
-		return ""
-	case len(n) >= 230:
+	if len(n) >= 230 {
 		return "near-name-max"
+	}
+	return nameTextClass(n)
+}
+
+// nameTextClass: the class by spelling alone, whatever the length.
+func nameTextClass(n string) string {
+	low := strings.ToLower(n)
+	if n == "" {
+		return ""
 	}
 	for _, s := range reservedSuffixes {
 		if strings.HasSuffix(low, s) {
@@ -245,6 +250,8 @@ func opArgClass(o Op) string {
 		switch {
 		case o.Off >= 1<<63:
 			return "offset-ge-2^63"
+		case o.Len >= 1<<31:
+			return "length-ge-2^31"
 		case o.Off+o.Len >= 1<<63:
 			return "offset+length-ge-2^63"
 		}
@@ -275,9 +282,15 @@ func listDiffClass(want, got []string) string {
 	for _, n := range got {
 		g[n] = true
 	}
+	cls := func(n string) string {
+		if c := nameTextClass(n); c != "" {
+			return c
+		}
+		return nameClass(n)
+	}
 	for _, n := range want {
 		if !g[n] {
-			if c := nameClass(n); c != "" {
+			if c := cls(n); c != "" {
 				return "missing-name-" + c
 			}
 			return ""
@@ -285,7 +298,7 @@ func listDiffClass(want, got []string) string {
 	}
 	for _, n := range got {
 		if !w[n] {
-			if c := nameClass(n); c != "" {
+			if c := cls(n); c != "" {
 				return "extra-name-" + c
 			}
 			return ""
